@@ -90,6 +90,14 @@ def gen(rng, tier):
                   "str == \"" + "\\x41" * k + "\"", "num in {" + " ".join(["1"] * k) + "}",
                   "strs" + "[0]" * 2 + " == \"a\"", "x" * k + " == 1", "str == " + ":".join(["41"] * k)):
             out.append(parse_case(sch, t, "default"))
+    # nested calls within the nesting limit whose innermost argument fails (unknown name, wrong type, cut off): the
+    # error must come back at once - a parser that tries an argument twice on failure needs 2^depth steps
+    for depth in (12, 24, 40, 100, 127):
+        for fn in ("lower", "echo"):
+            for inner in ("nosuchfield", "num", "str ==", "str, str", ""):
+                t = (fn + "(") * depth + inner + ")" * depth + ' == "a"'
+                out.append(parse_case(sch, t, "default"))
+                out.append(parse_case(sch, (fn + " (") * depth + inner, "default"))
     # token soups
     for _ in range(n // 2):
         k = rng.randrange(1, 14)
